@@ -88,6 +88,10 @@ def _d1(chk, fb):
     ctor = ctor[0]
     setf = fb.q1(S + "::setFrequencies")
     cb, sb = _case_bodies(ctor), _case_bodies(setf)
+    if not cb or not sb:
+        # the codings are selected by something else than a switch (if-chain, helpers): the two copies are not paired here
+        chk.unknown("D1", setf.key, "coding-agrees", setf.loc(), "the coding is not selected by 'switch (method_)' in %s: the copies are not compared" % ("the constructor" if not cb else "setFrequencies"))
+        return
     chk.floor("D1", "coding methods in constructor and setFrequencies", min(len(cb), len(sb)), 3)
     ren_c = [(r"\bvProb_\b", "P")]
     ren_s = [(r"\bprobas\b", "P")]
@@ -133,11 +137,15 @@ def _d2(chk, fb):
             chk.proved("D2", f.key, "argument-size", f.loc(), "indices bounded by the argument's own size")
             continue
 
-        def est(facts, p=p):
+        sizes = [re.escape(p + ".size()")] + [re.escape(dd["name"]) for d in f.all_nodes() if d["k"] == "DeclStmt" for dd in d["decls"]
+                                                if dd.get("init") is not None and dd["id"] in sub and render(dd["init"]) == p + ".size()"]
+        szre = "(?:%s)" % "|".join(sizes)
+
+        def est(facts, p=szre):
             for t, tr, nd in facts:
-                if re.match(r"\(%s\.size\(\) != dim_\)|\(dim_ != %s\.size\(\)\)" % (p, p), t) and tr is False:
+                if re.match(r"\(%s != dim_\)|\(dim_ != %s\)" % (p, p), t) and tr is False:
                     return True
-                if re.match(r"\(%s\.size\(\) == dim_\)|\(dim_ == %s\.size\(\)\)" % (p, p), t) and tr is True:
+                if re.match(r"\(%s == dim_\)|\(dim_ == %s\)" % (p, p), t) and tr is True:
                     return True
             return False
         bad = [c for c in idx if not e1.guarded_by(cfg, cfg.stmt_block(c), est)[0]]
@@ -152,25 +160,36 @@ def _d2(chk, fb):
 def _d3(chk, fb):
     n = 0
     for c in [x for x in fb.q(S + "::Simplex") if not x.rec.get("copyctor")]:
-        pcs = []
-        for d in walk(c.body):
+        # every value a local may hold: its initialiser and what is assigned to it
+        vals = {}
+        for d in c.all_nodes():
             if d["k"] == "DeclStmt":
                 for dd in d["decls"]:
+                    vals.setdefault(dd["name"], [])
                     if dd.get("init") is not None:
-                        t = render(dd["init"])
-                        if "PROP_CONSTRAINT_IN" in t and "PROP_CONSTRAINT_EX" in t and "(allowNull ?" in t:
-                            pcs.append(dd["name"])
-        for nw in [x for x in walk(c.body) if x["k"] == "CXXNewExpr" and x.get("newty") == "bpp::Parameter"]:
+                        vals[dd["name"]].append(render(dd["init"]))
+            elif d["k"] == "BinaryOperator" and d["op"] == "=" and strip(kids(d)[0])["k"] == "DeclRefExpr":
+                vals.setdefault(strip(kids(d)[0])["decl"]["name"], []).append(render(kids(d)[1]))
+            elif is_call(d) and d["callee"]["name"] == "operator=" and "obj" in d and strip(c.obj(d))["k"] == "DeclRefExpr":
+                vals.setdefault(strip(c.obj(d))["decl"]["name"], []).append(render(c.args(d)[0]))
+        tests_flag = any("allowNull" in render(c.nodes[x["cond"]]) for x in c.all_nodes() if x["k"] in ("IfStmt", "ConditionalOperator") and isinstance(x.get("cond"), int) and x["cond"] in c.nodes) or \
+            any(x["k"] == "ConditionalOperator" and "allowNull" in render(kids(x)[0]) for x in c.all_nodes())
+        for nw in [x for x in c.all_nodes() if x["k"] == "CXXNewExpr" and x.get("newty") == "bpp::Parameter"]:
             n += 1
             ce = [x for x in kids(nw) if x["k"] == "CXXConstructExpr"][0]
-            args = [render(a) for a in c.args(ce)]
-            if len(args) >= 3:
-                refs = [x["decl"]["name"] for x in walk(c.args(ce)[2]) if x["k"] == "DeclRefExpr"]
-                args[2] = refs[0] if len(refs) == 1 else args[2]
-            if len(args) >= 3 and args[2] in pcs:
-                chk.proved("D3", c.key, "constrained-parameter", c.loc(nw), "constraint '%s' = allowNull ? [0,1] : ]0,1[" % args[2])
+            args = c.args(ce)
+            if len(args) < 3 or args[2] is None or args[2]["k"] == "CXXDefaultArgExpr":
+                chk.refuted("D3", c.key, "constrained-parameter", c.loc(nw), "a simplex parameter is created without the allowNull-selected [0,1] / ]0,1[ constraint (no constraint argument)")
+                continue
+            refs = [x["decl"]["name"] for x in walk(args[2]) if x["k"] == "DeclRefExpr"]
+            txt = " ".join(vals.get(refs[0], [])) if len(refs) == 1 and refs[0] in vals else render(args[2])
+            both = "PROP_CONSTRAINT_IN" in txt and "PROP_CONSTRAINT_EX" in txt
+            if both and tests_flag:
+                chk.proved("D3", c.key, "constrained-parameter", c.loc(nw), "constraint '%s' takes [0,1] or ]0,1[ under a test of allowNull" % render(args[2]))
+            elif not both and ("PROP_CONSTRAINT_IN" in txt or "PROP_CONSTRAINT_EX" in txt or txt in ("nullptr", "0", "")):
+                chk.refuted("D3", c.key, "constrained-parameter", c.loc(nw), "a simplex parameter is created without the allowNull-selected [0,1] / ]0,1[ constraint (%s)" % [render(args[2])])
             else:
-                chk.refuted("D3", c.key, "constrained-parameter", c.loc(nw), "a simplex parameter is created without the allowNull-selected [0,1] / ]0,1[ constraint (%s)" % args[2:3])
+                chk.unknown("D3", c.key, "constrained-parameter", c.loc(nw), "constraint argument '%s' not traced to the two proportion constraints" % render(args[2]))
     chk.floor("D3", "parameters created by the constructors", n, 5)
 
 
